@@ -59,6 +59,13 @@ def make_bindings():
             "e2": width(PhaseSpaceFactorSWave),
             "e3": BlattWeisskopfSquared(z, angular_momentum=2),
         },
+        # CPython: hash(-1) == hash(-2), and SymPy's tuple-based hashing carries that through: with PYTHONHASHSEED set
+        # (file name from hash()) these two share one key file under every seed; with the seed unset they do not
+        "minus": {
+            "e1": PhaseSpaceFactor(s, m1, m2) ** (-1) + BlattWeisskopfSquared(z, angular_momentum=1),
+            "e2": PhaseSpaceFactor(s, m1, m2) ** (-2) + BlattWeisskopfSquared(z, angular_momentum=1),
+            "e3": width(PhaseSpaceFactorSWave, L=0),
+        },
         # symbols that differ in assumptions only
         "assume": {
             "e1": sp.sqrt(BreakupMomentumSquared(sr, m1, m2)) + PhaseSpaceFactorComplex(sr, m1, m2),
